@@ -325,15 +325,7 @@ def observe_fit(idnt, kwargs, label="", post=None, fault=False):
         cpexp = 99
         if p["cp_passed"] is not None and cp0 not in (None, 0.0) and k != 1:
             cpexp = exponent(p["cp_passed"] / cp0, k)
-        repexp = 99
-        if i == len(passes) - 1 and success and k != 1 \
-                and p.get("cp_out") not in (None, 0.0):
-            try:
-                repexp = exponent(
-                    float(fp["params_fitted"]["contact_point"].value)
-                    / p["cp_out"], k)
-            except (KeyError, TypeError, ZeroDivisionError):
-                repexp = 98
+        repexp = 99      # (filled in below, for the run that was reported)
         rpasses.append({
             "rep_exp": int(repexp), "kind": kind,
             "lo": rank_of(table, min(lo, hi)),
@@ -362,6 +354,26 @@ def observe_fit(idnt, kwargs, label="", post=None, fault=False):
             out["stored_cp_exp"] = 98
     except (KeyError, TypeError, ZeroDivisionError):
         out["stored_cp_exp"] = 99
+    # the reported contact point is that of the run whose points are the
+    # reported range (the last one, or a remembered earlier one), divided
+    # by k
+    if success and k != 1 and rpasses:
+        fr0 = np.flatnonzero(np.asarray(idnt["fit range"]).astype(bool)) \
+            if "fit range" in idnt else np.array([], int)
+        fin = [int(j) + 1 for j in fr0]
+        cand = [j for j, rp in enumerate(rpasses)
+                if rp["mask"] == fin and rp["ok"]
+                and passes[j].get("cp_out") not in (None, 0.0)]
+        exps = []
+        for j in cand:
+            try:
+                exps.append(exponent(
+                    float(fp["params_fitted"]["contact_point"].value)
+                    / passes[j]["cp_out"], k))
+            except (KeyError, TypeError, ZeroDivisionError):
+                exps.append(98)
+        if exps:
+            rpasses[cand[-1]]["rep_exp"] = -1 if -1 in exps else exps[-1]
     # what the reported range has to be with the plateau search
     out["fin_lo"], out["fin_hi"] = 0, 0
     if mode == "edelta" and "optimal_fit_delta" in fp:
